@@ -823,7 +823,12 @@ class PyvalColorizer:
 
     def _colorize_ast_generic(self, pyval: ast.AST, state: _ColorizerState) -> None:
         try:
-            source = astor.to_source(pyval).strip()
+            if state.linebreakok:
+                source = astor.to_source(pyval).strip()
+            else:
+                # A one line representation is required: do not let astor wrap long lines, 
+                # the first line break would cut the value there.
+                source = astor.to_source(pyval, pretty_source=''.join).strip()
         except Exception: #  No defined handler for node of type <type>
             state.result.append(self.UNKNOWN_REPR)
         else:
